@@ -1,71 +1,104 @@
 #!/usr/bin/env python3
 """Self-test of the GoVC checks: every patch under mustfail/ must make the named property's check
 report a VIOLATION (exit 1); every patch under mustpass/ (semantics-preserving edits) must not.
-Patch file name: <PROP>_<name>.diff.  Patches are applied to a scratch git worktree of /repo
-(under $VERIF_SCRATCH, default /var/tmp/verif-scratch), never to /repo itself."""
-import os, subprocess, sys, glob, shutil, time, json
+Patch file name: <PROP>_<name>.diff.  Patches are applied to scratch git worktrees of /repo
+(under $VERIF_SCRATCH, default /var/tmp/verif-scratch), never to /repo itself.  $VERIF_JOBS
+worktrees (default 3) work in parallel."""
+import os, subprocess, sys, glob, shutil, time, json, threading, queue
 
 ROOT = os.path.dirname(os.path.abspath(__file__))
 SCRATCH = os.environ.get("VERIF_SCRATCH", "/var/tmp/verif-scratch")
-WT = os.path.join(SCRATCH, "selftest-wt-%d" % os.getpid())
+JOBS = int(os.environ.get("VERIF_JOBS", "3"))
+
 
 def sh(cmd, **kw):
     return subprocess.run(cmd, shell=True, stdout=subprocess.PIPE, stderr=subprocess.STDOUT, text=True, **kw)
 
-def main():
-    only = sys.argv[1:]
-    os.makedirs(SCRATCH, exist_ok=True)
-    sh(f"git -C /repo worktree remove --force {WT}")
-    shutil.rmtree(WT, ignore_errors=True)
-    r = sh(f"git -C /repo worktree add --detach {WT} HEAD")
+
+def make_wt(wt):
+    sh(f"git -C /repo worktree remove --force {wt}")
+    shutil.rmtree(wt, ignore_errors=True)
+    r = sh(f"git -C /repo worktree add --detach {wt} HEAD")
     if r.returncode != 0:
-        print(r.stdout); return 2
+        print(r.stdout)
+        return False
     # the worktree must reflect the working tree of /repo (uncommitted edits included)
     d = sh("git -C /repo diff HEAD")
     if d.stdout.strip():
-        p = subprocess.run(f"git -C {WT} apply", shell=True, input=d.stdout, text=True)
-    # untracked contract files
+        subprocess.run(f"git -C {wt} apply", shell=True, input=d.stdout, text=True)
     for f in sh("git -C /repo ls-files --others --exclude-standard").stdout.split():
-        os.makedirs(os.path.dirname(os.path.join(WT, f)), exist_ok=True)
-        shutil.copy(os.path.join("/repo", f), os.path.join(WT, f))
-    sh(f"git -C {WT} add -A && git -C {WT} -c user.email=v@v -c user.name=v commit -qm base")
-    bad = 0
-    results = []
-    try:
-        for kind in ("mustfail", "mustpass"):
-            for patch in sorted(glob.glob(os.path.join(ROOT, kind, "*.diff"))):
-                name = os.path.basename(patch)[:-5]
-                prop = name.split("_")[0]
-                if only and not any(o in name for o in only):
-                    continue
-                a = sh(f"git -C {WT} apply --whitespace=nowarn {patch}")
-                if a.returncode != 0:
-                    print(f"SELFTEST-ERROR {kind}/{name}: patch does not apply: {a.stdout.strip()[:200]}")
-                    bad += 1
-                    sh(f"git -C {WT} checkout -- . && git -C {WT} clean -fdq")
-                    continue
-                b = sh(f"cd {WT} && GOFLAGS=-mod=mod GOPROXY=off go build ./... 2>&1 | head -5")
-                t0 = time.time()
-                c = sh(f"VERIF_REPO={WT} VERIF_SELFTEST=1 /verif/bin/govc check -prop {prop} -noreplay -noevidence")
-                dt = time.time() - t0
-                viol = "VIOLATION" in c.stdout
-                ok = (viol and c.returncode == 1) if kind == "mustfail" else (not viol and c.returncode == 0)
-                status = "ok" if ok else "WRONG"
-                if b.stdout.strip():
-                    status += " (patched tree does not build: %s)" % b.stdout.strip()[:120]
-                first = next((l for l in c.stdout.splitlines() if "VIOLATION" in l), "")
-                print(f"{status:6} {kind}/{name:50} exit={c.returncode} {dt:.1f}s {first[:160]}")
+        os.makedirs(os.path.dirname(os.path.join(wt, f)), exist_ok=True)
+        shutil.copy(os.path.join("/repo", f), os.path.join(wt, f))
+    sh(f"git -C {wt} add -A && git -C {wt} -c user.email=v@v -c user.name=v commit -qm base")
+    return True
+
+
+def main():
+    only = sys.argv[1:]
+    os.makedirs(SCRATCH, exist_ok=True)
+    jobs = []
+    for kind in ("mustfail", "mustpass"):
+        for patch in sorted(glob.glob(os.path.join(ROOT, kind, "*.diff"))):
+            name = os.path.basename(patch)[:-5]
+            if only and not any(o in name for o in only):
+                continue
+            jobs.append((kind, patch, name))
+    q = queue.Queue()
+    for j in jobs:
+        q.put(j)
+    results, lock = [], threading.Lock()
+    nw = max(1, min(JOBS, len(jobs)))
+    wts = [os.path.join(SCRATCH, "selftest-wt-%d-%d" % (os.getpid(), i)) for i in range(nw)]
+
+    def worker(wt):
+        if not make_wt(wt):
+            return
+        while True:
+            try:
+                kind, patch, name = q.get_nowait()
+            except queue.Empty:
+                return
+            prop = name.split("_")[0]
+            a = sh(f"git -C {wt} apply --whitespace=nowarn {patch}")
+            if a.returncode != 0:
+                with lock:
+                    print(f"SELFTEST-ERROR {kind}/{name}: patch does not apply: {a.stdout.strip()[:200]}", flush=True)
+                    results.append({"patch": kind + "/" + name, "ok": False, "exit": -1, "first": "patch does not apply"})
+                sh(f"git -C {wt} checkout -- . && git -C {wt} clean -fdq")
+                continue
+            b = sh(f"cd {wt} && GOFLAGS=-mod=mod GOPROXY=off go build ./... 2>&1 | head -5")
+            t0 = time.time()
+            c = sh(f"VERIF_REPO={wt} VERIF_SELFTEST=1 /verif/bin/govc check -prop {prop} -noreplay -noevidence")
+            dt = time.time() - t0
+            viol = "VIOLATION" in c.stdout
+            ok = (viol and c.returncode == 1) if kind == "mustfail" else (not viol and c.returncode == 0)
+            status = "ok" if ok else "WRONG"
+            if b.stdout.strip():
+                status += " (patched tree does not build: %s)" % b.stdout.strip()[:120]
+            first = next((ln for ln in c.stdout.splitlines() if "VIOLATION" in ln), "")
+            with lock:
+                print(f"{status:6} {kind}/{name:50} exit={c.returncode} {dt:.1f}s {first[:160]}", flush=True)
                 results.append({"patch": kind + "/" + name, "ok": ok, "exit": c.returncode, "first": first[:300]})
                 if not ok:
-                    bad += 1
-                    print(c.stdout[-1500:])
-                sh(f"git -C {WT} checkout -- . && git -C {WT} clean -fdq")
+                    print(c.stdout[-1500:], flush=True)
+            sh(f"git -C {wt} checkout -- . && git -C {wt} clean -fdq")
+
+    ths = [threading.Thread(target=worker, args=(wt,)) for wt in wts]
+    try:
+        for t in ths:
+            t.start()
+        for t in ths:
+            t.join()
     finally:
-        sh(f"git -C /repo worktree remove --force {WT}")
-        shutil.rmtree(WT, ignore_errors=True)
-    json.dump(results, open(os.path.join(ROOT, "last_run.json"), "w"), indent=1)
+        for wt in wts:
+            sh(f"git -C /repo worktree remove --force {wt}")
+            shutil.rmtree(wt, ignore_errors=True)
+    bad = sum(1 for r in results if not r["ok"])
+    if not only:
+        json.dump(sorted(results, key=lambda r: r["patch"]), open(os.path.join(ROOT, "last_run.json"), "w"), indent=1)
     print(f"selftest: {len(results)} patches, {bad} wrong")
     return 1 if bad else 0
+
 
 if __name__ == "__main__":
     sys.exit(main())
